@@ -131,11 +131,25 @@ SHAPE_DOCS = {
     'htmlS3': [('text/html', HTMLS[1])],
     'cmd': [('x-cmd/cat', PAY[0]), ('x-cmdre/anything', PAY[1])],
     'none': [('text/plain', PAY[0]), ('image/png', PAY[1])],
-    'matchL': [('text/html', HTML0[0]), ('text/css; inline=1', CSSI[0]), ('image/svg+xml', SVG1)],
-    'matchP': [('text/xml; charset=utf-8', XML[0]), ('application/ld+json', JSON[0]), ('text/x-ecmascript', JS[0]),
-               ('a/x-upper', PAY[0]), ('x-cmdre/q', PAY[0]), ('text/plain', PAY[0]),
-               ('x-cmdre/feed+json; inline=1', JSON[1]), ('x-gatere/doc+xml', XML[0]), ('a+json/x-upper', JSON[0])],
+    # AddCmd with $in / $in+$out placeholders (fixed in /repo by fd040d4; ordinary members of the registry since)
+    'cmdin': [('x-cmd/in', PAY[0]), ('x-cmd/in', CSS[1]), ('x-cmdio/copy', PAY[1]), ('x-cmdio/other; a=b', JSON[0])],
+    # Match, then the driver invokes the returned function (no outer read hold)
+    'matchL': [('text/html', HTML0[0]), ('text/html; charset=utf-8', HTML0[1])],
+    'matchC': [('text/css; inline=1', CSSI[0])],
+    'matchS': [('image/svg+xml', SVG1)],
+    'matchP': [('text/xml; charset=utf-8', XML[0]), ('x-gatere/doc+xml', XML[0])],
+    'matchJ': [('application/ld+json', JSON[0])],
+    'matchJi': [('x-cmdre/feed+json; inline=1', JSON[1])],
+    'matchJs': [('text/x-ecmascript', JS[0])],
+    'matchU': [('a/x-upper', PAY[0]), ('a+json/x-upper', JSON[0])],
+    'matchCmd': [('x-cmdre/q', PAY[0]), ('x-cmd/cat', PAY[1])],
+    'matchN': [('text/plain', PAY[0])],
 }
+# shapes ending in H: the same documents through m.Writer / m.Reader with the pipe stalled by the driver, so that the
+# wrapper's worker goroutine is parked INSIDE the real minifier holding the registry's read lock
+HOLD_SHAPES = {'cssH': 'css', 'cssDH': 'cssD', 'jsH': 'js', 'jsonH': 'json', 'xmlH': 'xml', 'svg1H': 'svg1',
+               'html0H': 'html0', 'htmlCH': 'htmlC', 'htmlSH': 'htmlS'}
+MATCH_ALL = ['matchL', 'matchC', 'matchS', 'matchP', 'matchJ', 'matchJi', 'matchJs', 'matchU', 'matchCmd', 'matchN']
 GATE_DOCS = {
     'htmlG': [('text/html', b'<!doctype html><p> a <script type="application/x-gate;id=%d">pay  load</script> b</p>'),
               ('text/html', b'<div><style type="application/x-gate; id=%d"> st yle </style></div>'),
@@ -147,8 +161,11 @@ GATE_DOCS = {
     'htmlCG': [('text/html', b'<p style="background: url(\'data:x-gatere/s;id=%d,q\'); margin: 0px"> t </p>')],
     'gate': [('application/x-gate; id=%d', PAY[0])],
     'gatere': [('x-gatere/q; id=%d', PAY[1]), ('x-gatere/other;id=%d', PAY[0])],
+    'matchG': [('application/x-gate; id=%d', PAY[1])],          # parked inside the function Match returned: no read hold at all
+    'matchGre': [('x-gatere/m; id=%d', PAY[0])],
 }
-PAIR_SHAPES = ['html0', 'htmlC', 'htmlD', 'htmlS', 'htmlS3', 'css', 'cssD', 'cssi', 'js', 'json', 'xml', 'svg0', 'svg2', 'cmd', 'none']
+PAIR_SHAPES = ['html0', 'htmlC', 'htmlD', 'htmlS', 'htmlS3', 'css', 'cssD', 'cssi', 'js', 'json', 'xml', 'svg0', 'svg2', 'cmd', 'cmdin', 'none']
+PARK_SHAPES = sorted(GATE_DOCS) + sorted(HOLD_SHAPES)
 MAXGATE = 40
 
 
@@ -180,6 +197,9 @@ class Pool:
         return dict(kind='docs', docs=[dict(id=i, b=base64.b64encode(self.docs[i]).decode()) for i in ids])
 
     def call(self, rnd, sh, gid=0, entry=None):
+        if sh in HOLD_SHAPES:
+            mt, d = rnd.choice(self.by_shape[HOLD_SHAPES[sh]])
+            return dict(e=rnd.choice(['Writer', 'Reader']), mt=mt, doc=d, gate=gid, sh=sh, hold=True)
         if sh in GATE_DOCS:
             mt, d = rnd.choice(self.gate[(sh, gid)])
         else:
@@ -314,7 +334,7 @@ def pair_scenarios(pool, rnd, quick, optsets, sid0):
                 elif v == 'conc':
                     progs, script = [[ca], [cb]], [S(1, 1), S(2, 1), D(2, 1), D(1, 1)]
                 else:
-                    cg = pool.call(rnd, rnd.choice(sorted(GATE_DOCS)), gate_id(3, 1))
+                    cg = pool.call(rnd, rnd.choice(PARK_SHAPES), gate_id(3, 1))
                     progs = [[ca], [cb], [cg]]
                     script = [S(3, 1), P(3, 1), S(1, 1), S(2, 1), D(1, 1), D(2, 1), R(3, 1), D(3, 1)]
                 out.append(dict(kind='sched', id='%s%d' % (sid0, n), optset=o, gomaxprocs=rnd.choice([1, 4, 16]),
@@ -353,10 +373,10 @@ def stress_scenarios(pool, rnd, calls, quick, optsets):
                 for g in range(G):
                     # Match before and after Minify on pattern-served and literal types in every program
                     mid = [rnd.choice(calls if rnd.random() < 0.15 else nocmd) for _ in range(per)]
-                    m1 = pool.call(rnd, rnd.choice(['matchP', 'matchL']))
+                    m1 = pool.call(rnd, rnd.choice(MATCH_ALL))
                     progs.append([m1] + mid + [dict(m1)])
                 parked = []
-                for i, sh in enumerate(rnd.sample(sorted(GATE_DOCS), 4 if quick else 6)):
+                for i, sh in enumerate(rnd.sample(PARK_SHAPES, 5 if quick else 8)):
                     c = pool.call(rnd, sh, 30 + i)
                     parked.append(c)
                 out.append(dict(kind='stress', id='x%d' % n, optset=rnd.choice(optsets), gomaxprocs=P, progs=progs, parked=parked))
@@ -579,7 +599,7 @@ def describe(sc, lines, whys):
 def identity(sc, pool):
     """what identifies a witness: the scenario with documents by content"""
     def cc(c):
-        return [c['e'], c['mt'], hashlib.sha1(pool.docs[c['doc']]).hexdigest()[:12], c.get('gate', 0)]
+        return [c['e'], c['mt'], hashlib.sha1(pool.docs[c['doc']]).hexdigest()[:12], c.get('gate', 0)] + (['hold'] if c.get('hold') else [])
     d = dict(kind=sc['kind'], optset=sc.get('optset', 0), gomaxprocs=sc.get('gomaxprocs', 0))
     if sc.get('calls'):
         d['calls'] = [cc(c) for c in sc['calls']]
@@ -593,6 +613,8 @@ def identity(sc, pool):
         d['args'] = sc['args']
     if 'conc' in sc:
         d['conc'] = sc['conc']
+    if sc.get('regression'):
+        d['regression'] = sc['regression']     # former witness of a fixed defect: its key is not a known-finding key
     return d
 
 
@@ -746,10 +768,11 @@ def _run(ctx, exe, quick, rnd, mc_info):
         rnd.shuffle(order)
         seqs.append(dict(kind='seq', id='q%d' % o, optset=o, gomaxprocs=4, calls=order))
     stress = stress_scenarios(pool, rnd, calls, quick, optsets)
-    shape_calls = [dict(e='Bytes', mt=mt, doc=d, gate=0, sh=sh) for sh, lst in sorted(pool.by_shape.items())
-                   if not sh.startswith('match') for mt, d in lst]
-    shape_calls += [dict(e='Bytes', mt=mt, doc=d, gate=0, sh=sh) for (sh, gid), lst in sorted(pool.gate.items()) if gid in (1, 7)
+    ent = lambda sh: 'Match' if sh.startswith('match') else 'Bytes'
+    shape_calls = [dict(e=ent(sh), mt=mt, doc=d, gate=0, sh=sh) for sh, lst in sorted(pool.by_shape.items()) for mt, d in lst]
+    shape_calls += [dict(e=ent(sh), mt=mt, doc=d, gate=0, sh=sh) for (sh, gid), lst in sorted(pool.gate.items()) if gid in (1, 7)
                     for mt, d in lst]
+    shape_calls += [dict(e='Bytes', mt=mt, doc=d, gate=0, sh=sh) for sh, b in sorted(HOLD_SHAPES.items()) for mt, d in pool.by_shape[b]]
     shapes = [dict(kind='shape', id='h%d' % o, optset=o, gomaxprocs=4, calls=shape_calls) for o in optsets]
     everything = scheds + pairs + seqs + stress
     bases = base_scenarios(everything)
@@ -770,7 +793,8 @@ def _run(ctx, exe, quick, rnd, mc_info):
     _t(ctx, 'driver processes finished (%s)' % ', '.join('%s:%d lines' % (j[0], len(r)) for j, r in zip(jobs, results)))
     other = [l for r in results[2:] for l in r]
 
-    # ---- pinned known findings (own process: their race reports must not touch the main runs)
+    # ---- pinned witnesses: known findings and regression scenarios of fixed defects (own process: a race report
+    #      there must not touch the main runs); a regression scenario that is rejected again is a VIOLATION
     pinned = pinned_scenarios(pool)
     pin_lines = run_driver(ctx, exe, pool, pinned, 'pinned', 30000) if pinned else []
     for sc in pinned:
@@ -897,12 +921,18 @@ def _run(ctx, exe, quick, rnd, mc_info):
              'with parked readers and Match before/after, (d) one sequential pass per option set on one registry, (e) all reference '
              'calls repeated in a second process; a call is (entry point, media type, document, option set). Non-trivial = distinct '
              'scripted history in which a call returned while another goroutine was parked inside a gate or two calls were in flight '
-             'together, plus each stress run. Excluded from the generators (pinned as known findings instead): AddCmd with $in/$out '
-             'placeholders; html.Minifier.KeepConditionalComments=true (deprecated option).' % len(PAIR_SHAPES),
+             'together, plus each stress run. Parking points: gate minifiers (top level, below html, inside css via data URIs, '
+             'below svg->css, behind Match with no read hold) and stalled m.Writer/m.Reader pipes (worker parked inside the real '
+             'html/css/svg/js/json/xml minifier). Excluded from the generators (pinned as known finding instead): '
+             'html.Minifier.KeepConditionalComments=true (deprecated option). AddCmd with $in/$out placeholders is an ordinary '
+             'member of the registry since fix fd040d4; its former witnesses run as regression scenarios.' % len(PAIR_SHAPES),
         samples=samples,
         scripted_histories=len(scheds), pair_histories=len(pairs), stress_runs=len(stress),
         reference_calls=sum(len(b['calls']) for b in bases), repo_test_documents=nrepo,
         shape_checks=sum(len(sc['calls']) for sc in shapes),
+        calls_parked_inside_real_minifier=sum(1 for sc in scheds + pairs + stress for c in calls_of(sc) if c.get('hold')),
+        calls_parked_in_gate_minifier=sum(1 for sc in scheds + pairs + stress for c in calls_of(sc) if c.get('gate') and not c.get('hold')),
+        match_then_invoke_calls=sum(1 for sc in scheds + pairs + stress for c in calls_of(sc) if c['e'] == 'Match'),
         documents=len(pool.docs), pinned_known_scenarios=len(pinned),
     ))
     ctx.assumptions += [
